@@ -144,12 +144,17 @@ def header_counts(header):
     return {'nvars': int(a[0]), 'ncons': int(a[1]), 'nobjs': int(a[2]), 'nlcons': int(a[5])}
 
 
-def parse_expr(lines, i=0):
+def parse_expr(lines, i=0, nvars=None, dv=None):
+    """prefix NL expression text -> nlgen tuple tree; references to defined variables (index >= nvars)
+    are replaced by their definitions"""
     tok = lines[i]
     if tok[0] == 'n':
         return ('n', F(tok[1:])), i + 1
     if tok[0] == 'v':
-        return ('v', int(tok[1:])), i + 1
+        j = int(tok[1:])
+        if nvars is not None and j >= nvars:
+            return dv[j], i + 1
+        return ('v', j), i + 1
     if tok[0] != 'o':
         raise ValueError('bad expression token ' + tok)
     name = INV_OPC[int(tok[1:])]
@@ -158,13 +163,13 @@ def parse_expr(lines, i=0):
         cnt = int(lines[i]); i += 1
         args = []
         for _ in range(cnt):
-            a, i = parse_expr(lines, i)
+            a, i = parse_expr(lines, i, nvars, dv)
             args.append(a)
         return (name, args), i
     ar = 2 if name in nlgen.BIN_NUM else 1
     args = []
     for _ in range(ar):
-        a, i = parse_expr(lines, i)
+        a, i = parse_expr(lines, i, nvars, dv)
         args.append(a)
     return (name,) + tuple(args), i
 
@@ -182,12 +187,22 @@ class FileView:
         self.tokens = {}        # expression text -> token
         self.exprs = {0: None}  # token -> expression tree (NL variable positions)
         self.stream = []        # ('O', idx, ismax, tok) | ('G', idx, [(v, coefF)]) | ('X',)
+        self.defvars = {}       # index -> expression tree (linear part + nonlinear part)
         for s in self.segs:
             h = s[0]
-            if h[0] == 'O':
+            if h[0] == 'V':
+                a = h[1:].split()
+                nlin = int(a[1])
+                e, _ = parse_expr(s[1 + nlin:], 0, self.nvars, self.defvars)
+                for ln in s[1:1 + nlin]:
+                    q = ln.split()
+                    e = ('+', e, ('*', ('n', F(q[1])), ('v', int(q[0]))))
+                self.defvars[int(a[0])] = e
+                self.stream.append(('X',))
+            elif h[0] == 'O':
                 a = h[1:].split()
                 body = s[1:]
-                e, _ = parse_expr(body)
+                e, _ = parse_expr(body, 0, self.nvars, self.defvars)
                 if e[0] == 'n' and e[1] == 0:
                     tok = 0
                 else:
@@ -286,6 +301,12 @@ def text_to_binary(text):
             out.extend(c.encode() + I(a[0])); expr_lines(s[1:])
         elif c == 'O':
             out.extend(b'O' + I(a[0]) + I(a[1])); expr_lines(s[1:])
+        elif c == 'V':
+            out.extend(b'V' + I(a[0]) + I(a[1]) + I(a[2]))
+            nlin = int(a[1])
+            for ln in s[1:1 + nlin]:
+                p = ln.split(); out.extend(I(p[0]) + D(p[1]))
+            expr_lines(s[1 + nlin:])
         elif c in 'GJ':
             out.extend(c.encode() + I(a[0]) + I(a[1]))
             for ln in s[1:]:
@@ -318,6 +339,38 @@ def mutate(rng, text, kind):
     n = header_counts(header)['nobjs']
     oi = [i for i, s in enumerate(segs) if s[0][0] == 'O']
     gi = [i for i, s in enumerate(segs) if s[0][0] == 'G']
+    if kind == 'defvar' and oi:
+        nv = header_counts(header)['nvars']
+        ndv = rng.rint(1, 2)
+        vsegs = []
+        for j in range(ndv):
+            r = rng.below(4)
+            e = gen_affine(rng, nv) if r == 0 else ('*', ('v', rng.below(nv)), ('v', rng.below(nv))) if r == 1 else \
+                ('abs', gen_affine(rng, nv)) if r == 2 else ('+', ('*', ('n', rcoef(rng)), ('v', rng.below(nv))), ('n', rcoef(rng)))
+            if j == 1 and rng.chance(1, 2):
+                e = ('-', e, ('v', nv))          # second defined variable uses the first
+            body = []
+            nlgen.wexpr(e, body)
+            lin = ['%d %s' % (rng.below(nv), nlgen.fnum(rcoef(rng)))] if rng.chance(1, 2) else []
+            vsegs.append(['V%d %d 0' % (nv + j, len(lin))] + lin + body)
+        new = [list(s) for s in segs]
+        used = 0
+        order = list(oi)
+        while order:
+            i = order.pop(rng.below(len(order)))
+            if used and not rng.chance(1, 2):
+                continue
+            ref = 'v%d' % (nv + rng.below(ndv))
+            sg = new[i]
+            body = sg[1:]
+            if len(body) == 1 and body[0][0] == 'n' and F(body[0][1:]) == 0:
+                new[i] = [sg[0], ref]
+            else:
+                new[i] = [sg[0], rng.choice(['o0', 'o1'])] + body + [ref]
+            used += 1
+        h = list(header)
+        h[9] = ' 0 0 %d 0 0' % ndv
+        return join_nl(h, vsegs + new), '%d defined variable(s) used by %d objective(s)' % (ndv, used)
     if kind == 'shuffle':
         objsegs = [segs[i] for i in oi + gi]
         others = [s for i, s in enumerate(segs) if i not in oi + gi]
@@ -822,7 +875,7 @@ def run(ck):
             count_ops(o['nl'], stats['expr_ops'])
         mutation, note = None, 'as written by gen/nlgen.py'
         r = rng.below(100)
-        kind = 'shuffle' if r < 20 else 'dupO' if r < 27 else 'dupG' if r < 34 else 'dropO' if r < 42 else 'badidx' if r < 46 else None
+        kind = 'shuffle' if r < 20 else 'dupO' if r < 27 else 'dupG' if r < 34 else 'dropO' if r < 42 else 'badidx' if r < 46 else 'defvar' if r < 62 else None
         if kind:
             t2, desc = mutate(rng, text, kind)
             if desc:
@@ -844,7 +897,7 @@ def run(ck):
                     extra_runs.append(('fmt', first, c))
             # reduced-file oracle for explicit single selections on regular files
             ex = expected_from_options(items, n)
-            if mutation in (None, 'shuffle') and ex[0] == 'ok' and len(ex[1]) == 1 and n >= 2 and rng.chance(1, 2):
+            if mutation in (None, 'shuffle', 'defvar') and ex[0] == 'ok' and len(ex[1]) == 1 and n >= 2 and rng.chance(1, 2):
                 f = ex[1][0]
                 rrow = '\n'.join(row.split('\n')[:FileView(text).num_cons] + [row.split('\n')[FileView(text).num_cons + f]]) + '\n'
                 rc = Case(cid, reduce_to(text, f), first.binary, rrow, col, [], None, [], quadobj, 'reduced to objective %d' % (f + 1), mutation); cid += 1
